@@ -33,13 +33,29 @@ pub struct StyleCase {
     advance_ms: u64,
 }
 
-fn cluster_pool() -> BoxedStrategy<char> {
+fn cluster_pool() -> BoxedStrategy<String> {
     prop_oneof![
-        5 => prop_oneof![Just('#'), Just('>'), Just('-'), Just('='), Just('.'), Just(' '), Just('█'), Just('░'), Just('⠁'), Just('é')],
-        2 => prop_oneof![Just('世'), Just('界'), Just('😀')],
-        1 => prop_oneof![Just('\u{300}'), Just('\u{301}'), Just('\u{200b}')],
+        10 => prop_oneof![Just('#'), Just('>'), Just('-'), Just('='), Just('.'), Just(' '), Just('█'), Just('░'), Just('⠁'), Just('é')].prop_map(String::from),
+        4 => prop_oneof![Just('世'), Just('界'), Just('😀')].prop_map(String::from),
+        2 => prop_oneof![Just('\u{300}'), Just('\u{301}'), Just('\u{200b}')].prop_map(String::from),
+        // several code points that form one grapheme cluster (one progress character when the crate is
+        // built with `improved_unicode`, several otherwise): sun + VS16, a flag, e + acute
+        1 => prop_oneof![Just("\u{2600}\u{fe0f}"), Just("\u{1f1e9}\u{1f1ea}"), Just("e\u{301}"), Just("\u{2600}")].prop_map(String::from),
     ]
     .boxed()
+}
+
+/// the progress characters as the crate segments them: grapheme clusters with `improved_unicode`,
+/// single code points otherwise
+fn segments(s: &str) -> Vec<String> {
+    #[cfg(feature = "improved_unicode")]
+    {
+        unicode_segmentation::UnicodeSegmentation::graphemes(s, true).map(String::from).collect()
+    }
+    #[cfg(not(feature = "improved_unicode"))]
+    {
+        s.chars().map(String::from).collect()
+    }
 }
 
 fn key_template() -> BoxedStrategy<String> {
@@ -112,7 +128,7 @@ fn case_strategy() -> BoxedStrategy<StyleCase> {
 }
 
 fn widths(s: &str) -> Vec<usize> {
-    s.chars().map(|c| UnicodeWidthStr::width(c.to_string().as_str())).collect()
+    segments(s).iter().map(|c| UnicodeWidthStr::width(c.as_str())).collect()
 }
 
 /// Must the builder reject this call (documented rejections)?
@@ -120,7 +136,7 @@ fn must_reject(call: &BCall) -> Option<&'static str> {
     match call {
         BCall::TickChars(s) if s.chars().count() < 2 => Some("fewer than two tick chars"),
         BCall::TickStrings(v) if v.len() < 2 => Some("fewer than two tick strings"),
-        BCall::ProgressChars(s) if s.chars().count() < 2 => Some("fewer than two progress characters"),
+        BCall::ProgressChars(s) if segments(s).len() < 2 => Some("fewer than two progress characters"),
         BCall::ProgressChars(s) => {
             let w = widths(s);
             if w.iter().any(|x| *x != w[0]) {
@@ -286,10 +302,10 @@ pub fn property() -> Property {
             "custom keys used by the harness never panic",
         ],
         parts: vec![Box::new(Gen::<StyleCase> {
-            name: "builder",
+            name: if cfg!(feature = "improved_unicode") { "builder_improved_unicode" } else { "builder" },
             rule: "1-5 builder calls (with_template/template over all 28 documented keys with grammar-conforming specs, tick_chars, tick_strings, progress_chars with 0..6 clusters of width 0/1/2 mixed, with_key) each under catch_unwind; documented rejections must panic at build; an accepted style is drawn (tick, inc, println, finish/abandon, drop) for pos/len extremes, 1..200 columns, virtual elapsed up to 49 days, and get_tick_str for ticks up to u64::MAX; non-trivial = a non-default tick/progress table was accepted",
             strategy: |_| case_strategy(),
-            cases: |t| t.pick(12_000, 2_400_000),
+            cases: |t| t.pick(36_000, 2_400_000),
             run: run_style,
             signature: no_signature,
             essential: &["builder_rejected", "documented_rejection", "custom_table_accepted", "rendered", "template_error"],
